@@ -235,6 +235,8 @@ func checkC09(c *Check) {
 	}
 
 	// ---- R3
+	// the discovered end-session endpoint is the one of this filter's own discovery document
+	discoveryCacheKeyRule(c, "C09.R3")
 	if answer != nil {
 		d := resolveCell(stripConv(answer.Common().Args[1]))
 		okLoc, okCookie := false, false
